@@ -62,3 +62,8 @@ C['C05'] = dict(
  text="A directed boundary corpus, token edits and truncations of generated programs, random token sequences and Unicode noise are evaluated in an isolated worker under wall-clock, memory and instruction limits (and a sample through the real binary in file mode and on the prompt's stdin); TLC validates every recorded outcome against the alphabet Value | Err(one of five kinds) | Budget, and a budget-limited run only if the reference semantics on the same tree is itself still running.",
  ref="DESIGN.md 5 C05",
  note="Trusted: TLC, the isolated worker (harness/src/pool.rs). Known findings KF-C05-LIMITS, KF-C05-NATIVE-STACK, KF-C05-CYCLE-DISPLAY are matched by panic site / signal and input class; any other crash, hang or undocumented error kind is a violation.")
+C['C15'] = dict(
+ tech="TLA+ encoding laws (NlEnc) checked exhaustively by TLC at word widths 8 and 11 and symbolically by Apalache at width 64 (NlEncApa: all 2^61 integers, all 2^48 function descriptors); bound to the real Object constructors/accessors by TLC validation of recorded raw words (TV_Enc, 64-bit words as limb numbers)",
+ text="Round trip, tag correctness, injectivity across kinds and agreement of the signed word order with the integer order are established for the real width by Apalache's SMT encoding (and exhaustively for small widths by TLC; the pre-fix unsigned ordering is refuted on every run). The real constructors and accessors are then driven over the integer lattice, the complete cross product of a boundary set of function descriptors, random float bit patterns, random UTF-8 and nested arrays, and every recorded raw word / decoded payload / tag / alignment is validated against the scheme; `==` is validated on the complete cross product of a 200-value sample.",
+ ref="DESIGN.md 5 C15",
+ note="Trusted: TLC, Apalache 0.58 + Z3, NlBig limb arithmetic, the hook Object::raw_bits. Array equality is outside the property (scalars, text, functions).")
